@@ -714,7 +714,9 @@ class Fn:
         skipped_hints = []
         for pr in self.proofs:
             (anchor, side, text) = pr[:3]
-            optional = len(pr) > 3 and pr[3] == "optional"   # a hint tied to one code shape: skipped when that shape is gone
+            # a hint is tied to one code shape: when that shape is gone the hint is skipped and the function has to be
+            # proved without it (a failure is then undecided, never a violation: see skipped_hints in the driver)
+            optional = not (len(pr) > 3 and pr[3] == "required")
             if anchor in ("@start", "@end"):
                 # position-only anchors: right after the opening brace / right before the closing brace of the body
                 if anchor == "@start":
@@ -725,7 +727,7 @@ class Fn:
                     body = body[:i1] + text.rstrip("\n") + "\n" + body[i1:]
                 continue
             ms = list(re.finditer(anchor, body))
-            if optional and len(ms) == 0:
+            if optional and len(ms) != 1:
                 skipped_hints.append(anchor)
                 continue
             if len(ms) != 1:
